@@ -90,4 +90,107 @@ example : IsPerm [2, 0, 1] Ex.f0.colNames.length ∧ Ex.f0.colNames.Nodup ∧
   unfold IsPerm
   decide +kernel
 
+/-- "Statistics ... and selected markers produced by the pipeline's own stages
+are accepted by the next stage and identify clusters and genes consistently by
+name" — the composition, as the mapper sees it at one node
+(`assemble_query_data`).  Statistics file `f` whose leaves all have a row
+(`FileOK`), validated taxonomy, marker table `lk` for which the marker cache
+could be created against the file's `col_names` and the query's gene names,
+rectangular query matrix: for every consulted parent the node's matrices are
+built without error, and
+ * column `j` of the query matrix and column `j` of the reference matrix are
+   the SAME gene name `names[j]`; as a set the names are the node's markers
+   `specGenes` (property C08), none repeated;
+ * the rows of the reference matrix are the leaves below the node, by NAME,
+   in sorted order; entry `(i, j)` is the mean the statistics file holds for
+   (leaf name, gene name) — `meanByName`, i.e. row `cluster_to_row[leaf]`,
+   column `col_names.index(gene)`;
+ * entry `(k, j)` of the query matrix is the query's value of cell `k` in the
+   column NAMED `names[j]`.
+(`col_names` / the query's gene names need not even be distinct: both sides
+resolve a repeated name to its last column.) -/
+theorem names_consistent_mapper (f : StatsFile) (lk : Lookup) (query : Matrix) (m : Nat) (p : PKey)
+    (c : Cache) (hT : TreeWF f.tree) (hv : f.tree.validate = .ok ())
+    (hq : ∀ row ∈ query.data, row.length = query.geneIds.length) (hf : FileOK f)
+    (hp : p ∈ f.tree.allParents) (hc : Consulted f.tree p)
+    (hcache : createCache (some f.tree) lk f.colNames query.geneIds m = .ok c) :
+    ∃ names nd, mapperNode f lk query m p = .ok nd ∧ nd.query.geneIds = names ∧
+      nd.reference.geneIds = names ∧
+      (∀ g, g ∈ names ↔ g ∈ specGenes f.tree lk query.geneIds m p) ∧ names.Nodup ∧
+      leavesUnder f.tree p = .ok nd.reference.cellIds ∧ nd.query.cellIds = query.cellIds ∧
+      nd.reference.data.length = nd.reference.cellIds.length ∧
+      nd.query.data.length = query.data.length ∧
+      (∀ (i : Nat) (leaf : Leaf) (j : Nat) (g : Gene), nd.reference.cellIds[i]? = some leaf →
+        names[j]? = some g → (nd.reference.data[i]?.bind (·[j]?)) = meanByName f leaf g) ∧
+      (∀ (k j : Nat) (g : Gene), names[j]? = some g →
+        (nd.query.data[k]?.bind (·[j]?)) =
+          (query.data[k]?.bind (fun row => (nameToIdx query.geneIds g).bind (row[·]?)))) :=
+  mapperNode_spec f lk query m p c hT hq hf hp hc hcache
+    (leavesUnder_sub f.tree hT (RawTree.strict_of_validate hv) p hp)
+
+/- the instance: at the root the markers are 7 and 9 (columns 0, 2 of the file; 2, 0 of the
+query), at class 10 the marker is 5 (column 1 of the file, 3 of the query) -/
+example : TreeWF Ex.f0.tree ∧ Ex.f0.tree.validate = .ok () ∧
+    (∀ row ∈ Ex.query.data, row.length = Ex.query.geneIds.length) ∧
+    none ∈ Ex.f0.tree.allParents ∧ some (0, 10) ∈ Ex.f0.tree.allParents ∧
+    (createCache (some Ex.f0.tree) Ex.lk Ex.f0.colNames Ex.query.geneIds 1).toBool = true ∧
+    mapperNode Ex.f0 Ex.lk Ex.query 1 none = .ok
+      { query := { cellIds := [0, 1], geneIds := [7, 9], data := [[3, 1], [7, 5]] },
+        reference := { cellIds := [30, 31, 33], geneIds := [7, 9], data := [[1, 3], [3, 1], [2, 3]] } } ∧
+    mapperNode Ex.f0 Ex.lk Ex.query 1 (some (0, 10)) = .ok
+      { query := { cellIds := [0, 1], geneIds := [5], data := [[4], [8]] },
+        reference := { cellIds := [30, 31], geneIds := [5], data := [[2], [4]] } } :=
+  ⟨⟨by decide, by decide, by decide, by decide⟩, by decide +kernel, by decide, by decide, by decide,
+    by decide +kernel, by decide +kernel, by decide +kernel⟩
+example : Consulted Ex.f0.tree none ∧ Consulted Ex.f0.tree (some (0, 10)) :=
+  ⟨⟨[11, 10], rfl, by decide⟩, ⟨[31, 30], rfl, by decide⟩⟩
+
+/-- "... consistently by name", for every row order and every gene order of
+the statistics file at once: hand the mapper the file with its rows moved by
+`σ` and its gene columns moved by `π` (marker cache created against the NEW
+`col_names`).  The node's matrices are still built without error, their
+columns are still one list of gene names on both sides (the same SET of names,
+`specGenes`), their rows the leaves below the node by name, and every entry of
+the reference matrix is the value the ORIGINAL file holds for (leaf name, gene
+name).  Extra hypotheses: gene names distinct, rectangular arrays. -/
+theorem names_consistent_mapper_any_order (σ π : List Nat) (f : StatsFile) (lk : Lookup)
+    (query : Matrix) (m : Nat) (p : PKey) (c : Cache)
+    (hσ : IsPerm σ f.data.length) (hπ : IsPerm π f.colNames.length)
+    (hT : TreeWF f.tree) (hv : f.tree.validate = .ok ()) (hn : f.colNames.Nodup)
+    (hw : ∀ row ∈ f.data, row.genes.length = f.colNames.length)
+    (hq : ∀ row ∈ query.data, row.length = query.geneIds.length) (hf : FileOK f)
+    (hp : p ∈ f.tree.allParents) (hc : Consulted f.tree p)
+    (hcache : createCache (some f.tree) lk (permuteGenes π (permuteRows σ f)).colNames
+      query.geneIds m = .ok c) :
+    ∃ names nd, mapperNode (permuteGenes π (permuteRows σ f)) lk query m p = .ok nd ∧
+      nd.query.geneIds = names ∧ nd.reference.geneIds = names ∧
+      (∀ g, g ∈ names ↔ g ∈ specGenes f.tree lk query.geneIds m p) ∧ names.Nodup ∧
+      leavesUnder f.tree p = .ok nd.reference.cellIds ∧ nd.query.cellIds = query.cellIds ∧
+      nd.reference.data.length = nd.reference.cellIds.length ∧
+      nd.query.data.length = query.data.length ∧
+      (∀ (i : Nat) (leaf : Leaf) (j : Nat) (g : Gene), nd.reference.cellIds[i]? = some leaf →
+        names[j]? = some g → (nd.reference.data[i]?.bind (·[j]?)) = meanByName f leaf g) ∧
+      (∀ (k j : Nat) (g : Gene), names[j]? = some g →
+        (nd.query.data[k]?.bind (·[j]?)) =
+          (query.data[k]?.bind (fun row => (nameToIdx query.geneIds g).bind (row[·]?)))) := by
+  obtain ⟨names, nd, h1, h2, h3, h4, h5, h6, h7, h8, h9, h10, h11⟩ :=
+    names_consistent_mapper (permuteGenes π (permuteRows σ f)) lk query m p c hT hv hq
+      (fileOK_permute σ π f hσ hπ hf) hp hc hcache
+  refine ⟨names, nd, h1, h2, h3, h4, h5, h6, h7, h8, h9, ?_, h11⟩
+  intro i leaf j g hi hj
+  rw [h10 i leaf j g hi hj]
+  exact meanByName_permute σ π f hσ hπ hn hw leaf g
+
+/- rows moved by [1,2,0], genes by [2,0,1] (`col_names` = 5, 9, 7): at the root the names now
+come in the order 9, 7 (reference index order), the entries are the same values by name -/
+example : IsPerm [1, 2, 0] Ex.f0.data.length ∧ IsPerm [2, 0, 1] Ex.f0.colNames.length ∧
+    (createCache (some Ex.f0.tree) Ex.lk (permuteGenes [2, 0, 1] (permuteRows [1, 2, 0] Ex.f0)).colNames
+      Ex.query.geneIds 1).toBool = true ∧
+    mapperNode (permuteGenes [2, 0, 1] (permuteRows [1, 2, 0] Ex.f0)) Ex.lk Ex.query 1 none = .ok
+      { query := { cellIds := [0, 1], geneIds := [9, 7], data := [[1, 3], [5, 7]] },
+        reference := { cellIds := [30, 31, 33], geneIds := [9, 7], data := [[3, 1], [1, 3], [3, 2]] } } ∧
+    meanByName Ex.f0 33 9 = some 3 ∧ meanByName Ex.f0 33 7 = some 2 := by
+  unfold IsPerm
+  decide +kernel
+
 end CTM.C18
